@@ -3,6 +3,7 @@
 package worldk
 
 import (
+	"strings"
 	"context"
 	"crypto"
 	"crypto/rsa"
@@ -143,8 +144,8 @@ func c20Plans(tier string) []core.Trace {
 			out = append(out, append(head(1), core.Choice{L: "sig-byte", N: 256, V: b}, core.Choice{L: "sig-bit", N: 8, V: bit}))
 		}
 	}
-	for bit := 0; bit < 32; bit++ {
-		out = append(out, append(head(2), core.Choice{L: "crc-bit", N: 32, V: bit}))
+	for bit := 0; bit < 64; bit++ { // signature_crc32c travels as an int64: all 64 bits
+		out = append(out, append(head(2), core.Choice{L: "crc-bit", N: 64, V: bit}))
 	}
 	for f := 3; f <= 5; f++ {
 		out = append(out, head(f))
@@ -153,6 +154,17 @@ func c20Plans(tier string) []core.Trace {
 }
 
 func runC20(r *core.Run) {
+	defer func() {
+		// synctest's verdict that every goroutine of the bubble is durably blocked with no timer
+		// pending: the operation under test waits for something that can never happen (only
+		// reachable without a context deadline, which is itself a timer)
+		if p := recover(); p != nil {
+			if s := fmt.Sprint(p); strings.Contains(s, "all goroutines in bubble are blocked") {
+				r.Fail("non-termination", "blocked-forever", "the operation is blocked for ever: no goroutine of it can run and no timer is pending (%s)", s)
+			}
+			panic(p)
+		}
+	}()
 	bubble(func() { c20(r) })
 }
 
